@@ -12,6 +12,7 @@ from pyramid.util import (
 
 
 class TweensConfiguratorMixin:
+    @action_method
     def add_tween(self, tween_factory, under=None, over=None):
         """
         .. versionadded:: 1.2
